@@ -257,6 +257,7 @@ def stepD (b : Backend) (d : DSt) (ws : List String) : DSt × String :=
     match tyOf ty, n.toInt? with
     | some T, some n => (d, pforLine b d T n)
     | _, _ => (d, "bad-op")
+  | ["pforthrow", _ty, _n, _k] => (d, "caught")   -- the body's exception reaches the caller; no state is left behind
   | ["sfor", ty, n] =>
     match tyOf ty, n.toInt? with
     | some T, some n =>
